@@ -67,7 +67,9 @@ class ModelCoercerProvider(CoercerProvider):
         if len(exception_and_type_list) == 1:
             raise CannotProvide(
                 parent_notes_gen=lambda: [
-                    f"Hint: Class `{exception_and_type_list[0][1].__name__}` is not recognized as model."
+                    # not every type hint has `__name__`, e.g. `int | None`
+                    f"Hint: Class `{getattr(exception_and_type_list[0][1], '__name__', exception_and_type_list[0][1])}`"
+                    " is not recognized as model."
                     " Did your forget `@dataclass` decorator? Check documentation what model kinds are supported",
                 ],
             )
